@@ -20,6 +20,14 @@
      - Routed s0 \/ NoCrash s0: in-flight messages are addressed to the node their destination lives on now (fails
        only after crash + recover + re-adding a process ON ANOTHER NODE; there snapshot and simulator disagree);
      - the continuation consists of step calls (no crash / recover / link operation during the continuation).
+   C04_safe ("model checking never declares safe a system that the simulator can break", Proofs/HandoffSafe.v): if
+   the checker's run on the snapshot (over the model of the CODE's store, any strategy, visited mode, fuel) returns Ok
+   for predicates that are functions of the process-visible projection, then every state of every override-free
+   simulator run from s0 - s0 included - satisfies the invariant, unless a strictly earlier state of the run is a goal or
+   prune state (where the exploration legitimately stops).  C04_safe_plain: without goal / prune predicates the
+   invariant holds at EVERY state the simulation passes through.  C04_breakable_never_ok: the contrapositive.
+   C04_safe_once / C04_safe_steps: static set_timer_once form, System::steps(k) form.  C04_example_safe: an instance
+   in which the checker's run really returns Ok.
    C04_stage1 is the fault-free special case (all rates 0, nothing cut): exactly one checker step per simulator step.
    C04_*_steps are the same for System::steps(k).  C04_example_*: the hypotheses are satisfiable (crashed node, cut
    link, duplication rate 1, handlers that re-arm timers after cancelling).
@@ -28,8 +36,16 @@
    (correspondence).  KNOWN FINDINGS F13 and F10 (through the hand-off) are exactly the excluded cases. *)
 From ASV Require Import Base.Util Base.Msg Base.Log Model.Sim Model.McSys Spec.TimeLaws
      Proofs.TimerOrder Proofs.SnapshotP Proofs.FateAgree Proofs.SimTimeP
-     Proofs.HandoffSimBase Proofs.HandoffSim Proofs.HandoffSimEx Proofs.HandoffSim2Base Proofs.HandoffSim2 Proofs.HandoffSim2Ex.
+     Proofs.HandoffSimBase Proofs.HandoffSim Proofs.HandoffSimEx Proofs.HandoffSim2Base Proofs.HandoffSim2 Proofs.HandoffSim2Ex
+     Proofs.HandoffSafe Proofs.HandoffSafeEx.
 
+Definition C04_safe := @HandoffSafe.C04_safe.
+Definition C04_safe_plain := @HandoffSafe.C04_safe_plain.
+Definition C04_breakable_never_ok := @HandoffSafe.C04_breakable_never_ok.
+Definition C04_safe_once := @HandoffSafe.C04_safe_once.
+Definition C04_safe_steps := @HandoffSafe.C04_safe_steps.
+Definition C04_example_safe := @HandoffSafeEx.example_safe.
+Definition C04_example_safe_runs := @HandoffSafeEx.example_run.
 Definition C04_stage2 := @HandoffSim2.C04_stage2.
 Definition C04_stage2_once := @HandoffSim2.C04_stage2_once.
 Definition C04_stage2_steps := @HandoffSim2.C04_stage2_steps.
@@ -50,6 +66,13 @@ Definition C04_snapshot_timer_not_stronger := @snapshot_timer_remaining.
 Definition C04_fate_permitted := @sim_fate_permitted.
 Definition C04_queue_minimum := @q_next_some.
 
+Print Assumptions C04_safe.
+Print Assumptions C04_safe_plain.
+Print Assumptions C04_breakable_never_ok.
+Print Assumptions C04_safe_once.
+Print Assumptions C04_safe_steps.
+Print Assumptions C04_example_safe.
+Print Assumptions C04_example_safe_runs.
 Print Assumptions C04_stage2.
 Print Assumptions C04_stage2_once.
 Print Assumptions C04_stage2_steps.
